@@ -202,11 +202,29 @@ pub fn gen_graph_project(rng: &mut Rng, tier: Tier, ptr: usize) -> Project {
             fields.push(crate::props::c09::field(&format!("x{k}"), ty));
         }
         // Functions.
-        let mut sig_ty = |rng: &mut Rng| match rng.below(4) {
+        let mut sig_ty = |rng: &mut Rng| match rng.below(6) {
             0 => Ty::Prim(*rng.pick(&["u32", "i64", "bool", "f64"])),
             1 => Ty::Name(format!("__ITEM_{}", rng.below(cfg.items))),
             2 => Ty::Name(format!("__ITEM_{}", rng.below(cfg.items))).cptr(),
-            _ => Ty::Prim("void").mptr(),
+            3 => Ty::Prim("void").mptr(),
+            // Arrays in signatures: plain, nested with different lengths, behind and around
+            // pointers, of opaque bytes.
+            4 => {
+                let inner = match rng.below(3) {
+                    0 => Ty::Prim(*rng.pick(&["u8", "u16", "f32"])),
+                    1 => Ty::Name(format!("__ITEM_{}", rng.below(cfg.items))).cptr(),
+                    _ => Ty::Unknown(rng.range(1, 5)),
+                };
+                let a = rng.range(1, 4);
+                let b = rng.range(1, 7);
+                match rng.below(4) {
+                    0 => inner.arr(a),
+                    1 => inner.arr(a).arr(b),
+                    2 => inner.arr(a).cptr().arr(b),
+                    _ => inner.arr(a).arr(b).mptr(),
+                }
+            }
+            _ => Ty::Prim(*rng.pick(&["u8", "i32"])).arr(rng.range(1, 4)).arr(rng.range(1, 5)).cptr(),
         };
         let mut mk_func = |rng: &mut Rng, virt: bool| {
             fn_counter += 1;
@@ -496,11 +514,13 @@ pub fn gen_graph_project(rng: &mut Rng, tier: Tier, ptr: usize) -> Project {
             for k in 0..rng.below(2) {
                 let ty = if n > 0 && rng.chance(2, 3) {
                     let t = Ty::Item(rng.below(n));
-                    if rng.chance(1, 2) {
-                        t.mptr()
-                    } else {
-                        t
+                    match rng.below(4) {
+                        0 | 1 => t.mptr(),
+                        2 => t.cptr().arr(rng.range(1, 3)).arr(rng.range(1, 5)),
+                        _ => t,
                     }
+                } else if rng.chance(1, 3) {
+                    Ty::Prim("u16").arr(rng.range(1, 3)).arr(rng.range(1, 6))
                 } else {
                     Ty::Prim("u32").mptr()
                 };
@@ -654,9 +674,145 @@ pub fn gen_graph_project(rng: &mut Rng, tier: Tier, ptr: usize) -> Project {
     p
 }
 
+/// The same dependency graph twice: once with a name of its own for every item, once with
+/// names shared between modules (an item called like the item it imports and embeds, like an
+/// item of a module it does not even import, ...). Which names exist and what embeds what is
+/// the same in both; so is, then, whether the build is accepted.
+fn homonymise(rng: &mut Rng, p: &Project) -> Option<(Project, Vec<(String, String)>)> {
+    let mut h = p.clone();
+    fn has_raw_name(t: &Ty) -> bool {
+        match t {
+            Ty::Name(_) => true,
+            Ty::ConstPtr(t) | Ty::MutPtr(t) | Ty::Array(t, _) => has_raw_name(t),
+            _ => false,
+        }
+    }
+    // Generated `<T>Vftable` names are mentioned as raw text: their owners keep their names.
+    let mut raw = p.modules.iter().any(|m| !m.extra_uses.is_empty());
+    for it in &p.items {
+        if let ItemKind::Type { fields, vftable, impl_funcs, .. } = &it.kind {
+            raw |= fields.iter().any(|f| has_raw_name(&f.ty));
+            for f in vftable.iter().flat_map(|v| v.funcs.iter()).chain(impl_funcs.iter()) {
+                raw |= f.args.iter().any(|(_, t)| has_raw_name(t));
+                raw |= f.ret.as_ref().is_some_and(has_raw_name);
+            }
+        }
+    }
+    let n = h.items.len();
+    let mut renamed = 0;
+    for i in 0..n {
+        if !rng.chance(2, 3) {
+            continue;
+        }
+        if raw && matches!(&h.items[i].kind, ItemKind::Type { vftable: Some(_), .. }) {
+            continue;
+        }
+        let mut mentioned = BTreeSet::new();
+        match &h.items[i].kind {
+            ItemKind::Type { fields, .. } => {
+                for f in fields {
+                    f.ty.items(&mut mentioned);
+                }
+            }
+            ItemKind::Enum { base, .. } => base.items(&mut mentioned),
+            _ => {}
+        }
+        let foreign: Vec<usize> = mentioned
+            .into_iter()
+            .filter(|j| h.items[*j].module != h.items[i].module)
+            .collect();
+        let others: Vec<usize> = (0..n).filter(|j| h.items[*j].module != h.items[i].module).collect();
+        let donor = if !foreign.is_empty() && rng.chance(2, 3) {
+            *rng.pick(&foreign)
+        } else if !others.is_empty() {
+            *rng.pick(&others)
+        } else {
+            continue;
+        };
+        let name = p.items[donor].name.clone();
+        let m = h.items[i].module;
+        let taken = h.items.iter().enumerate().any(|(j, it)| {
+            j != i
+                && it.module == m
+                && (it.name == name
+                    || format!("{}Vftable", it.name) == name
+                    || it.name == format!("{name}Vftable"))
+        });
+        if taken {
+            continue;
+        }
+        h.items[i].name = name;
+        renamed += 1;
+    }
+    if renamed == 0 {
+        return None;
+    }
+    let mut map = vec![];
+    for i in 0..n {
+        map.push((p.full_item_path(i), h.full_item_path(i)));
+        if matches!(&p.items[i].kind, ItemKind::Type { vftable: Some(_), .. }) {
+            map.push((
+                format!("{}Vftable", p.full_item_path(i)),
+                format!("{}Vftable", h.full_item_path(i)),
+            ));
+        }
+    }
+    Some((h, map))
+}
+
+fn generate_homonyms(mut rng: Rng, seed: u64, tier: Tier, ptr: usize) -> Option<Case> {
+    let mut p = gen_graph_project(&mut rng, tier, ptr);
+    // Names are imported one by one (`use m::T;`) in most modules: that is where a name shared
+    // with the importing module's own item means something.
+    for m in p.modules.iter_mut() {
+        m.type_imports = rng.chance(3, 4);
+    }
+    let (h, map) = homonymise(&mut rng, &p)?;
+    let worlds = vec![
+        World::from_files(ptr, h.files()),
+        World::from_files(ptr, p.files()),
+    ];
+    let mut builds = vec![];
+    for w in 0..2 {
+        for i in 0..3 {
+            builds.push(BuildSpec {
+                world: w,
+                entry: any_entry(&mut rng),
+                sched: SchedSpec {
+                    unresolved: match i {
+                        0 => OrderSpec::Canonical,
+                        1 => OrderSpec::Reverse,
+                        _ => OrderSpec::Dynamic(rng.next_u64()),
+                    },
+                    module_write: any_order(&mut rng),
+                    definitions: any_order(&mut rng),
+                },
+                repeat: 1,
+            });
+        }
+    }
+    let mut params = Params::default();
+    for (u, hh) in map {
+        params.notes.push(format!("rename:{u}={hh}"));
+    }
+    Some(Case {
+        property: "C10".into(),
+        family: "homonyms".into(),
+        seed,
+        worlds,
+        builds,
+        params,
+    })
+}
+
 pub fn generate(seed: u64, tier: Tier) -> Case {
     let mut rng = Rng::new(seed);
     let ptr = if rng.chance(1, 2) { 4 } else { 8 };
+    if rng.chance(1, 6) {
+        if let Some(c) = generate_homonyms(Rng::new(rng.next_u64()), seed, tier, ptr) {
+            return c;
+        }
+    }
     let p = gen_graph_project(&mut rng, tier, ptr);
     let world = World::from_files(ptr, p.files());
     let k = match tier {
@@ -1017,8 +1173,27 @@ pub fn completeness(
                     continue;
                 }
                 // An array field may legitimately be absent (zero total size); with several
-                // fields of one name there is then nothing to compare it with.
+                // fields of one name there is then nothing to compare it with. A single field
+                // of that name on both sides is the declared one: its type must be the
+                // declared type, nested lengths in the declared order.
                 if matches!(ty, pyxis::grammar::Type::Array(..)) {
+                    let declared_once = t
+                        .statements
+                        .iter()
+                        .filter(|s2| matches!(&s2.field, pyxis::grammar::TypeField::Field(_, n2, _) if n2.as_str() == name.as_str()))
+                        .count()
+                        == 1;
+                    let emitted_same: Vec<&(String, String)> =
+                        emitted.iter().filter(|(n, _)| n == name.as_str()).collect();
+                    if declared_once && emitted_same.len() == 1 {
+                        return Err((
+                            "field-type-changed".into(),
+                            format!(
+                                "{out_rel}: `{}::{}` declared {want} emitted {}",
+                                d.name, name, emitted_same[0].1
+                            ),
+                        ));
+                    }
                     continue;
                 }
                 match emitted.iter().find(|(n, _)| n == name.as_str()) {
@@ -1056,7 +1231,114 @@ pub fn evaluate(
     results: &[Vec<RunResult>],
     report: &mut crate::case::CaseReport,
 ) -> Verdict {
-    let world = match parse_world(&case.worlds[0]) {
+    let mut verdicts = vec![];
+    for w in 0..case.worlds.len() {
+        let v = evaluate_world(case, w, results, report);
+        if matches!(v, Verdict::Violation { .. }) {
+            return v;
+        }
+        verdicts.push(v);
+    }
+    if case.family == "homonyms" && case.worlds.len() == 2 {
+        if let Some(v) = same_graph_same_verdict(case, results, report) {
+            return v;
+        }
+    }
+    if verdicts.iter().any(|v| matches!(v, Verdict::Held)) {
+        return Verdict::Held;
+    }
+    verdicts.into_iter().next().unwrap_or(Verdict::Held)
+}
+
+/// Worlds 0 (shared names) and 1 (a name of its own for every item) of a `homonyms` case: when
+/// the reference model finds every name defined and nothing cyclic in both, and the by-value
+/// graph is the same one under the renaming, then layout is the same too and both are accepted
+/// or both are rejected. A world that is rejected only under the shared names is a valid
+/// program turned down because of what its items are called.
+fn same_graph_same_verdict(
+    case: &Case,
+    results: &[Vec<RunResult>],
+    report: &mut crate::case::CaseReport,
+) -> Option<Verdict> {
+    let h = parse_world(&case.worlds[0]).ok()?;
+    let u = parse_world(&case.worlds[1]).ok()?;
+    let (mh, mu) = (Model::build(&h), Model::build(&u));
+    if mh.expects_error() || mu.expects_error() || !mh.duplicates.is_empty() || !mu.duplicates.is_empty() {
+        return None;
+    }
+    let mut map: std::collections::BTreeMap<String, String> = std::collections::BTreeMap::new();
+    for n in &case.params.notes {
+        if let Some((a, b)) = n.strip_prefix("rename:").and_then(|r| r.split_once('=')) {
+            map.insert(a.to_string(), b.to_string());
+        }
+    }
+    // Same declarations, same by-value edges.
+    if mu.decls.len() != mh.decls.len() {
+        return None;
+    }
+    for (path, d) in &mu.decls {
+        let hp = map.get(path)?;
+        let dh = mh.decls.get(hp)?;
+        if dh.kind != d.kind {
+            return None;
+        }
+        let mapped: Option<BTreeSet<String>> = d
+            .by_value
+            .iter()
+            .map(|t| {
+                if crate::model::BUILTINS.contains(&t.as_str()) {
+                    Some(t.clone())
+                } else {
+                    map.get(t).cloned()
+                }
+            })
+            .collect();
+        if mapped? != dh.by_value {
+            return None;
+        }
+    }
+    report.count("oracle:same_graph_under_renaming", 1);
+    let outcome = |w: usize| -> Option<(bool, String)> {
+        let mut seen: Option<(bool, String)> = None;
+        for (bi, b) in case.builds.iter().enumerate() {
+            if b.world != w {
+                continue;
+            }
+            for r in &results[bi] {
+                let ok = match &r.outcome {
+                    Outcome::Ok => true,
+                    Outcome::Err(_) => false,
+                    _ => return None,
+                };
+                match &seen {
+                    Some((s, _)) if *s != ok => return None, // order dependence: C09's business
+                    Some(_) => {}
+                    None => seen = Some((ok, r.outcome.brief())),
+                }
+            }
+        }
+        seen
+    };
+    let (oh, ou) = (outcome(0)?, outcome(1)?);
+    if oh.0 != ou.0 {
+        let (which, why) = if ou.0 { ("shared", &oh.1) } else { ("distinct", &ou.1) };
+        return Some(Verdict::violation(
+            "rejected-because-of-item-names",
+            format!(
+                "the same dependency graph (every name defined, nothing cyclic) is accepted under one naming and rejected under the other ({which} names): {why}"
+            ),
+        ));
+    }
+    None
+}
+
+fn evaluate_world(
+    case: &Case,
+    w: usize,
+    results: &[Vec<RunResult>],
+    report: &mut crate::case::CaseReport,
+) -> Verdict {
+    let world = match parse_world(&case.worlds[w]) {
         Ok(w) => w,
         Err(e) => return Verdict::Vacuous(format!("world does not parse: {e}")),
     };
@@ -1073,6 +1355,9 @@ pub fn evaluate(
         report.count(&format!("model:undefined_in:{:?}", u.position), 1);
     }
     for (bi, reps) in results.iter().enumerate() {
+        if case.builds[bi].world != w {
+            continue;
+        }
         for r in reps {
             match &r.outcome {
                 Outcome::StepBudget => {
